@@ -1,0 +1,85 @@
+//go:build verif
+// +build verif
+
+package cmd
+
+import (
+	"context"
+
+	"github.com/cockroachdb/errors"
+)
+
+// VerifCollectErrors feeds the given results (in completion order; "" is a
+// nil error, "<cancel>" a context cancellation) to the real collectErrors, the
+// function that gathers the results of concurrent commands (cleanups, the
+// lines of a scene, spotlights), and returns the text of the combined error
+// ("" for nil) and whether errors.Is(err, context.Canceled) holds for it.
+func VerifCollectErrors(results []string) (combined string, isCancel bool) {
+	ch := make(chan error, len(results)+1)
+	for _, r := range results {
+		switch r {
+		case "":
+			ch <- nil
+		case "<cancel>":
+			ch <- context.Canceled
+		default:
+			ch <- errors.New(r)
+		}
+	}
+	if len(results) == 0 {
+		ch <- nil
+	}
+	err := collectErrors(context.Background(), nil, ch, "verif")
+	if err == nil {
+		return "", false
+	}
+	return err.Error(), errors.Is(err, context.Canceled)
+}
+
+// VerifFunnel runs the error-combination steps of conduct's shutdown stages on
+// given component errors, with the real combineErrors / ignCancel and the real
+// errors.Is test of the deferred audit re-check.  order is the sequence of
+// reads: each element names a component ("p", "s", "a", "c") and whether the
+// read goes through ignCancel.  Errors are lists of causes: "cancel", "audit",
+// "real".
+func VerifFunnel(comp map[string][]string, order []VerifRead, verdict, cleanup []string) (nonNil bool, text string) {
+	mk := func(causes []string) error {
+		var e error
+		for _, c := range causes {
+			var x error
+			switch c {
+			case "cancel":
+				x = errors.WithStack(context.Canceled)
+			case "audit":
+				x = errors.Mark(errors.New("audit"), errAuditViolation)
+			default:
+				x = errors.New("real")
+			}
+			e = combineErrors(e, x)
+		}
+		return e
+	}
+	var finalErr error
+	for _, r := range order {
+		e := mk(comp[r.Comp])
+		if r.IgnCancel {
+			e = ignCancel(e)
+		}
+		finalErr = combineErrors(e, finalErr)
+	}
+	err := finalErr
+	if !errors.Is(err, errAuditViolation) {
+		err = combineErrors(err, mk(verdict))
+	}
+	err = combineErrors(err, mk(cleanup))
+	if err == nil {
+		return false, ""
+	}
+	return true, err.Error()
+}
+
+// VerifRead is one read of a component's error channel.
+type VerifRead struct {
+	Comp      string
+	IgnCancel bool
+}
